@@ -22,6 +22,8 @@ func init() {
 	checks["C07"] = runC07
 	checks["C16"] = runC16
 	caseChecks["C04"] = c04RegistryCase
+	caseChecks["C05reg"] = func(t *rm.Type, v *rm.Value) *ev.Violation { return checksumRegistryCase(t, v, "C05") }
+	caseChecks["C03reg"] = func(t *rm.Type, v *rm.Value) *ev.Violation { return checksumRegistryCase(t, v, "C03") }
 }
 
 func dynTable(t *rm.Type) *rm.Table {
@@ -142,8 +144,12 @@ func runFrameHist(r *ev.Run, prop string, thorough bool) {
 	// every registered body type with ITS OWN V1 (every leaf deviation of every body, mid-range list sizes included),
 	// wrapped in the frame: a fresh buffer, a small-capacity buffer and a buffer holding earlier bytes
 	frameBodyHistories(r, prop, frames, [][]hOp{{{opENC, 0}}, {{opJUNK, 1}, {opENC, 0}, {opENC, 0}}}, []int{capZero, 128})
+	// a frame whose body the library must refuse, then valid frames (state left behind by the failed attempt)
+	afterFailedEncode(r, prop, frames)
 	if prop == "C04" {
 		registryStateLeg(r, frames)
+	} else {
+		checksumRegistryLeg(r, "C05")
 	}
 	r.Sample("sse.SseBinary key 33: [ENC(m0) ENC(m1) SKIP(3) ] cap class -1")
 	r.Sample("sample.RootPacket nil body: [JUNK(1) ENC(m1) ENC(m0)] cap class 4096")
@@ -191,7 +197,7 @@ func runC06(r *ev.Run, thorough bool) {
 	// repeatability over the whole value space V1: the SAME object encoded several times into one buffer
 	v1Histories(r, "C06", bind.Types, [][]hOp{{{opJUNK, 0}, {opENC, 0}, {opENC, 0}, {opSKIP, 1}, {opENC, 0}}}, capZero, true, false)
 	// encodes that must fail, followed by valid ones: nothing of the failed attempt may leak into later output
-	afterFailedEncode(r, "C06")
+	afterFailedEncode(r, "C06", bind.Types)
 	r.Sample("szse.NewOrder nil-fill: [ENC(m0) ENC(m0) SKIP(3)] (encoder materialises the extension, second encode must give the same bytes)")
 	r.Set("bound", map[string]any{"depth": depth, "frame_depth": fd})
 }
@@ -407,8 +413,8 @@ func frameBodyHistories(r *ev.Run, prop string, frames []*rm.Type, seqs [][]hOp,
 // afterFailedEncode: a message the library must refuse (a part too long for its prefix) is encoded first — into the
 // same buffer and, separately, into another buffer — and then a valid message: the valid message's bytes must be
 // exactly its reference encoding (nothing left over from the failed attempt, in the buffer or anywhere else).
-func afterFailedEncode(r *ev.Run, prop string) {
-	parTypes(r, bind.Types, func(t *rm.Type, l *ev.Local) {
+func afterFailedEncode(r *ev.Run, prop string, types []*rm.Type) {
+	parTypes(r, types, func(t *rm.Type, l *ev.Local) {
 		good := valenum.Distinct(t)
 		sc := &hScenario{Name: t.QName() + " after-failed-encode", T: t, SkipObjectCheck: true}
 		try := func(bad *rm.Value, desc string) bool {
@@ -490,6 +496,117 @@ func c04RegistryCase(t *rm.Type, v *rm.Value) *ev.Violation {
 		}
 	}
 	return nil
+}
+
+// checksumRegistryCase: one frame value (stale caller checksum) encoded with the checksum registry cleared. In that
+// state the pinned library does not compute a checksum and emits the caller's value, which is outside C05's premise
+// (the trailer is not self-computed). What the properties still say: a trailer the library DID compute itself (one
+// that differs from the caller's value) must be the algorithm's value over this frame (C05) in the protocol's byte
+// order (C03: the algorithm's value in the opposite byte order is reported as such), and the object must report
+// what is on the wire.
+func checksumRegistryCase(t *rm.Type, v *rm.Value, prop string) *ev.Violation {
+	defer restoreBuiltins()
+	codec.Clear()
+	ref, segs, _, err := rm.EncodeRef(v)
+	if err != nil {
+		return nil
+	}
+	msg := bind.MustReal(v)
+	buf := &bytes.Buffer{}
+	if e := bind.Encode(msg, buf); e != nil {
+		return nil // refusing to encode without the service is a legitimate answer
+	}
+	out := buf.Bytes()
+	got := bind.MustFrom(t, msg)
+	for _, sg := range segs {
+		if sg.Role != "checksum" || sg.Off+sg.Len > len(out) || len(out) != len(ref) {
+			continue
+		}
+		fi := t.FieldIndex(strings.TrimPrefix(sg.Path, "."))
+		if fi < 0 {
+			continue
+		}
+		render := func(bits uint64) []byte {
+			b := make([]byte, sg.Len)
+			for i := 0; i < sg.Len; i++ {
+				sh := uint(8 * i)
+				if !t.Little() {
+					sh = uint(8 * (sg.Len - 1 - i))
+				}
+				b[i] = byte(bits >> sh)
+			}
+			return b
+		}
+		wire := out[sg.Off : sg.Off+sg.Len]
+		stale := render(v.Fields[fi].Bits)
+		right := ref[sg.Off : sg.Off+sg.Len]
+		mk := func(kind, detail string) *ev.Violation {
+			vv := vio(kind, t, sg.Path, "registry cleared: "+detail, v)
+			vv.Replay["check"] = prop + "reg"
+			return vv
+		}
+		if bytes.Equal(wire, stale) || bytes.Equal(wire, right) {
+			if prop == "C05" && !bytes.Equal(render(got.Fields[fi].Bits), wire) {
+				return mk("object-checksum-differs-from-wire", fmt.Sprintf("wire %x, the message object reports %#x", wire, got.Fields[fi].Bits))
+			}
+			continue
+		}
+		rev := append([]byte{}, right...)
+		for i := 0; i < len(rev)/2; i++ {
+			rev[i], rev[len(rev)-1-i] = rev[len(rev)-1-i], rev[i]
+		}
+		if prop == "C03" {
+			if bytes.Equal(wire, rev) {
+				return mk("wrong-byte-order", fmt.Sprintf("self-computed checksum on the wire %x is the algorithm's value in the opposite byte order (protocol %s-endian: want %x)", wire, t.Order, right))
+			}
+			continue
+		}
+		return mk("self-computed-checksum-wrong", fmt.Sprintf("the library replaced the caller's checksum %x by %x, which is not the algorithm's value %x over this frame", stale, wire, right))
+	}
+	return nil
+}
+
+// checksumRegistryLeg (C05, C03; sequential, after all parallel work).
+func checksumRegistryLeg(r *ev.Run, prop string) {
+	l := ev.NewLocal()
+	n := 0
+	for _, t := range bind.Types {
+		if t.DynField() < 0 {
+			continue
+		}
+		has := false
+		for i := range t.Fields {
+			if t.Fields[i].Kind == "checksum" {
+				has = true
+			}
+		}
+		if !has {
+			continue
+		}
+		tab := dynTable(t)
+		for _, k := range tab.Order {
+			for _, base := range []string{"Z", "D", "L"} {
+				for _, st := range []uint64{4, 0xFFFFFFFF} {
+					v := valenum.Stale(valenum.WithKey(t, k, base), st)
+					key := ev.H(t.QName() + "reg" + v.String())
+					l.Eval(key, true)
+					l.States[key] = struct{}{}
+					l.Transitions++
+					l.Traces++
+					n++
+					if viol := checksumRegistryCase(t, v, prop); viol != nil {
+						r.Violate(viol)
+						if r.TooMany() {
+							r.Merge(l)
+							return
+						}
+					}
+				}
+			}
+		}
+	}
+	r.Merge(l)
+	r.Set("registry_state_leg", fmt.Sprintf("%d frame values (every registered key x Z/D/L x 2 stale caller checksums) encoded with the checksum registry cleared (sequential): a trailer the library computed itself must be the algorithm's value in the protocol's byte order", n))
 }
 
 func registryStateLeg(r *ev.Run, frames []*rm.Type) {
